@@ -1,11 +1,11 @@
 /-
 C01 — Pacers keep the hit count on their declared schedule in closed loop.
 
-Constant pacer: theorems over ALL integer parameter values (within the Go types' ranges where a
-range matters), all elapsed times / hit counts, all stall histories of unbounded length.
+Constant pacer (repaired code, /repo a5c2a38): every clause at full strength over ALL integer
+parameter values of the Go types, all elapsed times, all hit counts, all stall histories of
+unbounded length.  The three defects of the code before the repair stay machine-checked on
+`constPaceOld` (`*_old_counterexample`).
 Sine / linear pacers: the decision structure of the code for ANY float operations.
-Where the unchanged code violates a clause the full statement is kept in a comment, its negation is
-proved on a concrete witness (`…_counterexample`) and the part that does hold is `…_partial`.
 -/
 import Vegeta.Model.Pacer
 import Mathlib.Tactic.Linarith
@@ -15,74 +15,100 @@ open Vegeta.Go Vegeta.Model.Pacer
 
 /-! ## Notation of the statement -/
 
-/-- The code's own catch-up test `hits < expectedHits` (with Go's wrap-around). -/
-abbrev Behind (freq per elapsed : Int) (hits : Nat) : Prop :=
-  (hits : Int) < wrapU64 (wrapU64 freq * wrapU64 (wrapS64 (elapsed.tdiv per)))
+/-- The exact deadline of hit number `hits+1`: `⌈(hits+1)·Per/Freq⌉` nanoseconds after the start. -/
+def constDue (freq per : Int) (hits : Nat) : Int := (((hits : Int) + 1) * per + freq - 1) / freq
 
-/-- Parameters and arguments lie in the ranges of their Go types
-(`Freq int`, `Per time.Duration`, `elapsed time.Duration ≥ 0`, `hits uint64`). -/
-structure InRange (freq per elapsed : Int) (hits : Nat) : Prop where
+/-- Parameters and hit count lie in the ranges of their Go types
+(`Freq int`, `Per time.Duration`, `hits uint64`); `elapsed` is any integer. -/
+structure InRange (freq per : Int) (hits : Nat) : Prop where
   freq : inS64 freq
   per : inS64 per
-  elapsed : 0 ≤ elapsed ∧ elapsed ≤ maxInt64
   hits : (hits : Int) < (two64 : Int)
 
 /-! ## Helper lemmas -/
 
-theorem aux_wrapS64_mod (x : Int) : wrapS64 x % (two64 : Int) = x % (two64 : Int) := by
-  unfold wrapS64 two64 two63; simp only []; split <;> omega
+/-- `⌈T/f⌉` as computed: `f·(due−1) < T ≤ f·due`. -/
+theorem aux_ceil {T f : Int} (hf : 0 < f) :
+    T ≤ (T + f - 1) / f * f ∧ (T + f - 1) / f * f ≤ T + f - 1 := by
+  have h1 := Int.lt_ediv_add_one_mul_self (T + f - 1) hf
+  have h2 := Int.ediv_mul_le (T + f - 1) (Int.ne_of_gt hf)
+  have h3 : ((T + f - 1) / f + 1) * f = (T + f - 1) / f * f + f := by ring
+  omega
 
-theorem aux_wrapS64_congr {a b : Int} (h : a % (two64 : Int) = b % (two64 : Int)) :
-    wrapS64 a = wrapS64 b := by
-  unfold wrapS64; simp only [h]
-
-/-- The chain of wrapping conversions at the end of `Pace` is one reduction of the mathematical
-value `(hits+1)·interval − elapsed` into `int64`. -/
-theorem aux_delta (h i e : Int) :
-    wrapS64 (wrapS64 (wrapU64 (wrapU64 (h + 1) * i)) - e) = wrapS64 ((h + 1) * i - e) := by
-  apply aux_wrapS64_congr
-  rw [Int.sub_emod, aux_wrapS64_mod]
-  unfold wrapU64
-  rw [Int.emod_emod, Int.mul_emod, Int.emod_emod, ← Int.mul_emod, ← Int.sub_emod]
-
-theorem aux_div_bounds {a b : Int} (ha : 0 ≤ a) (hb : 0 < b) :
-    0 ≤ a / b ∧ a / b ≤ a ∧ a / b * b ≤ a ∧ a < (a / b + 1) * b :=
-  ⟨Int.ediv_nonneg ha (Int.le_of_lt hb), Int.ediv_le_self b ha,
-   Int.ediv_mul_le a (Int.ne_of_gt hb), Int.lt_ediv_add_one_mul_self a hb⟩
-
-theorem aux_div_pos {a b : Int} (hb : 0 < b) (hab : b ≤ a) : 1 ≤ a / b :=
-  Int.le_ediv_of_mul_le hb (by omega)
-
-/-- Normal form of `constPace` for positive in-range parameters. -/
+/-- Normal form of the repaired `constPace` for positive in-range parameters: the 128-bit
+`Mul64/Add64/Div64` sequence computes `constDue` exactly and never overflows. -/
 theorem aux_constPace_pos {freq per elapsed : Int} {hits : Nat}
-    (hf : 0 < freq) (hp : 0 < per) (hp' : per ≤ maxInt64) :
+    (hf : 0 < freq) (hp : 0 < per) (hf' : freq ≤ maxInt64) (hp' : per ≤ maxInt64)
+    (hh : (hits : Int) < (two64 : Int)) :
     constPace freq per elapsed hits =
-      if Behind freq per elapsed hits then .wait 0
-      else if per / freq = 0 then .panic
-      else if maxInt64 / (per / freq) < (hits : Int) then .stop
-      else .wait (wrapS64 (((hits : Int) + 1) * (per / freq) - elapsed)) := by
-  have hb := aux_div_bounds (Int.le_of_lt hp) hf
-  have hq : wrapU64 (wrapS64 (per.tdiv freq)) = per / freq := by
-    rw [Int.tdiv_eq_ediv_of_nonneg (Int.le_of_lt hp)]
-    have h1 : wrapS64 (per / freq) = per / freq :=
-      wrapS64_id (by unfold inS64 minInt64; unfold maxInt64 at *; omega)
-    rw [h1]
-    exact wrapU64_id (by unfold inU64 two64; unfold maxInt64 at *; omega)
-  unfold constPace constExpected constInterval sdiv udiv
-  rw [if_neg (by omega), if_neg (by omega), if_neg (by omega)]
-  simp only []
-  split
-  · rfl
-  · rw [if_neg (by omega)]
-    simp only [hq]
-    by_cases h0 : per / freq = 0
-    · simp only [if_pos h0]
-    · simp only [if_neg h0]
-      have hnn : (0 : Int) ≤ maxInt64 := by unfold maxInt64; omega
-      rw [Int.tdiv_eq_ediv_of_nonneg hnn]
-      split
-      · rfl
-      · rw [aux_delta]
+      if (hits : Int) = (two64 : Int) - 1 ∨ maxInt64 < constDue freq per hits then .stop
+      else if constDue freq per hits ≤ elapsed then .wait 0
+      else .wait (constDue freq per hits - max elapsed 0) := by
+  unfold constPace constDue
+  rw [if_neg (by omega), if_neg (by omega)]
+  by_cases hmax : (hits : Int) = (two64 : Int) - 1
+  · rw [if_pos hmax, if_pos (Or.inl hmax)]
+  · rw [if_neg hmax]
+    have hh0 : (0 : Int) ≤ (hits : Int) := Int.natCast_nonneg _
+    have w1 : wrapU64 ((hits : Int) + 1) = (hits : Int) + 1 :=
+      wrapU64_id (by unfold inU64; unfold two64 at *; omega)
+    have w2 : wrapU64 per = per :=
+      wrapU64_id (by unfold inU64 two64; unfold maxInt64 at *; omega)
+    have w3 : wrapU64 freq = freq :=
+      wrapU64_id (by unfold inU64 two64; unfold maxInt64 at *; omega)
+    have w4 : wrapU64 (freq - 1) = freq - 1 :=
+      wrapU64_id (by unfold inU64 two64; unfold maxInt64 at *; omega)
+    simp only [w1, w2, w3, w4]
+    -- the product as one atom, with its bounds
+    have hprod0 : 0 ≤ ((hits : Int) + 1) * per := Int.mul_nonneg (by omega) (Int.le_of_lt hp)
+    have hprod1 : ((hits : Int) + 1) * per ≤ (two64 : Int) * maxInt64 :=
+      Int.mul_le_mul (by omega) hp' (Int.le_of_lt hp) (by unfold two64; omega)
+    generalize hx : ((hits : Int) + 1) * per = x at *
+    -- hi, lo are the halves of total = x + freq - 1
+    have hhi : x / (two64 : Int) + (x % (two64 : Int) + (freq - 1)) / (two64 : Int)
+        = (x + freq - 1) / (two64 : Int) := by unfold two64; omega
+    have hlo : (x % (two64 : Int) + (freq - 1)) % (two64 : Int) = (x + freq - 1) % (two64 : Int) := by
+      unfold two64; omega
+    have hhi_small : (x + freq - 1) / (two64 : Int) < (two64 : Int) ∧
+        0 ≤ (x + freq - 1) / (two64 : Int) := by
+      unfold two64 maxInt64 at *; omega
+    rw [hhi, hlo, wrapU64_id (by unfold inU64; omega)]
+    have hsplit : (x + freq - 1) / (two64 : Int) * (two64 : Int) + (x + freq - 1) % (two64 : Int)
+        = x + freq - 1 := by
+      have := Int.ediv_add_emod (x + freq - 1) (two64 : Int)
+      rw [Int.mul_comm]; exact this
+    have hc := @aux_ceil x freq hf
+    by_cases hbig : freq ≤ (x + freq - 1) / (two64 : Int)
+    · -- the quotient would not fit 64 bits
+      rw [if_pos hbig, if_pos]
+      right
+      have h1 : freq * (two64 : Int) ≤ x + freq - 1 :=
+        (Int.le_ediv_iff_mul_le (by unfold two64; omega)).1 hbig
+      have h2 : (two64 : Int) ≤ (x + freq - 1) / freq :=
+        Int.le_ediv_of_mul_le hf (by rw [Int.mul_comm]; exact h1)
+      unfold two64 maxInt64 at *; omega
+    · rw [if_neg hbig]
+      unfold div64
+      rw [if_neg (by omega), hsplit]
+      simp only []
+      have htot : 0 ≤ x + freq - 1 := by omega
+      rw [Int.tdiv_eq_ediv_of_nonneg htot]
+      have hdue0 : 0 ≤ (x + freq - 1) / freq := Int.ediv_nonneg htot (Int.le_of_lt hf)
+      by_cases hov : maxInt64 < (x + freq - 1) / freq
+      · rw [if_pos hov, if_pos (Or.inr hov)]
+      · rw [if_neg hov, if_neg (by omega)]
+        have hs : wrapS64 ((x + freq - 1) / freq) = (x + freq - 1) / freq :=
+          wrapS64_id (by unfold inS64 minInt64; unfold maxInt64 at *; omega)
+        rw [hs]
+        by_cases hle : (x + freq - 1) / freq ≤ elapsed
+        · rw [if_pos hle, if_pos hle]
+        · rw [if_neg hle, if_neg hle]
+          congr 1
+          by_cases hneg : elapsed < 0
+          · rw [if_pos hneg, Int.max_eq_right (by omega)]
+            exact wrapS64_id (by unfold inS64 minInt64; unfold maxInt64 at *; omega)
+          · rw [if_neg hneg, Int.max_eq_left (by omega)]
+            exact wrapS64_id (by unfold inS64 minInt64; unfold maxInt64 at *; omega)
 
 /-! ## Sign and zero cases -/
 
@@ -106,173 +132,95 @@ example : constPace 0 (-5) 17 3 = .wait 0 := by decide
 
 /-! ## No panic -/
 
-/-
-FULL STATEMENT (false for the unchanged code):
-  theorem const_never_panics (freq per elapsed : Int) (hits : Nat) :
-      constPace freq per elapsed hits ≠ .panic
-`ConstantPacer{Freq: 2, Per: 1ns}.Pace(0, 0)`: interval = 1/2 = 0, `math.MaxInt64/interval` panics.
--/
-theorem const_never_panics_counterexample : constPace 2 1 0 0 = .panic := by decide
-
-/-- No panic for any elapsed time and hit count whenever the rate is at most one hit per
-nanosecond of the unit (`Freq ≤ Per`) or a field is not positive. -/
-theorem const_never_panics_partial (freq per elapsed : Int) (hits : Nat)
-    (hp : per ≤ maxInt64) (h : freq ≤ per ∨ freq ≤ 0 ∨ per ≤ 0) :
+/-- "No parameter values make a pacer panic": for every frequency of type `int`, every time
+unit, every elapsed time and every hit count (`bits.Div64` is reached only with
+`0 < y` and `hi < y`). -/
+theorem const_never_panics (freq per elapsed : Int) (hits : Nat) (hf : inS64 freq) :
     constPace freq per elapsed hits ≠ .panic := by
-  by_cases hz : freq = 0 ∨ per = 0
-  · rw [const_zero_unlimited _ _ _ _ hz]; exact PaceOut.noConfusion
-  · by_cases hn : freq < 0 ∨ per < 0
-    · rw [const_neg_stops _ _ _ _ (by omega) (by omega) hn]; exact PaceOut.noConfusion
-    · have hf0 : 0 < freq := by omega
-      have hp0 : 0 < per := by omega
-      have hle : freq ≤ per := by omega
-      rw [aux_constPace_pos hf0 hp0 hp]
-      have := aux_div_pos hf0 hle
+  unfold inS64 minInt64 maxInt64 at hf
+  unfold constPace div64
+  split
+  · exact PaceOut.noConfusion
+  · split
+    · exact PaceOut.noConfusion
+    · rename_i h1 h2
+      have w3 : wrapU64 freq = freq := wrapU64_id (by unfold inU64 two64; omega)
       split
       · exact PaceOut.noConfusion
-      · rw [if_neg (by omega)]
-        split <;> exact PaceOut.noConfusion
+      · simp only [w3]
+        split
+        · exact PaceOut.noConfusion
+        · rename_i hlt
+          rw [if_neg (by omega)]
+          simp only []
+          split
+          · exact PaceOut.noConfusion
+          · split <;> exact PaceOut.noConfusion
 
-example : (30000 : Int) ≤ 1000000000 ∨ (30000 : Int) ≤ 0 ∨ (1000000000 : Int) ≤ 0 := by omega
+/-- Before the repair: `ConstantPacer{Freq: 2, Per: 1ns}.Pace(0, 0)` divided by zero. -/
+theorem const_never_panics_old_counterexample : constPaceOld 2 1 0 0 = .panic := by decide
 
-/-- Exactly when the unchanged code panics (positive in-range parameters): more than one hit per
-nanosecond of the unit, as soon as the attacker is not behind by the code's own test. -/
-theorem const_panic_iff (freq per elapsed : Int) (hits : Nat)
-    (hf : 0 < freq) (hp : 0 < per) (hp' : per ≤ maxInt64) :
-    constPace freq per elapsed hits = .panic ↔ per < freq ∧ ¬ Behind freq per elapsed hits := by
-  rw [aux_constPace_pos hf hp hp']
-  have hb := aux_div_bounds (Int.le_of_lt hp) hf
-  constructor
-  · intro h
-    split at h
-    · exact absurd h PaceOut.noConfusion
-    · rename_i hnb
-      split at h
-      · rename_i h0
-        refine ⟨?_, hnb⟩
-        rw [h0] at hb
-        omega
-      · split at h <;> exact absurd h PaceOut.noConfusion
-  · rintro ⟨hlt, hnb⟩
-    rw [if_neg hnb, if_pos]
-    have : per / freq < 1 := Int.ediv_lt_of_lt_mul hf (by omega)
-    omega
-
-example : constPace 446 1 5 72296151 = .panic := by decide
+example : constPace 2 1 0 0 = .wait 1 := by decide
+example : constPace 446 1 5 72296151 = .wait 162095 := by decide
 
 /-! ## Overflow: stop instead of wrapping -/
 
-/-- The code's catch-up test without wrap-around, for rates of at most one hit per nanosecond. -/
-theorem aux_behind_iff {freq per elapsed : Int} {hits : Nat}
-    (hf : 0 < freq) (hfp : freq ≤ per) (hp' : per ≤ maxInt64)
-    (he : 0 ≤ elapsed ∧ elapsed ≤ maxInt64) :
-    Behind freq per elapsed hits ↔ (hits : Int) < freq * (elapsed / per) := by
-  have hp : 0 < per := by omega
-  have hb := aux_div_bounds he.1 hp
-  have hmul : freq * (elapsed / per) ≤ elapsed / per * per := by
-    rw [Int.mul_comm freq]; exact Int.mul_le_mul_of_nonneg_left hfp hb.1
-  have hnn : 0 ≤ freq * (elapsed / per) := Int.mul_nonneg (Int.le_of_lt hf) hb.1
-  have h1 : wrapS64 (elapsed.tdiv per) = elapsed / per := by
-    rw [Int.tdiv_eq_ediv_of_nonneg he.1]
-    exact wrapS64_id (by unfold inS64 minInt64; unfold maxInt64 at *; omega)
-  have h2 : wrapU64 (elapsed / per) = elapsed / per :=
-    wrapU64_id (by unfold inU64 two64; unfold maxInt64 at *; omega)
-  have h3 : wrapU64 freq = freq :=
-    wrapU64_id (by unfold inU64 two64; unfold maxInt64 at *; omega)
-  have h4 : wrapU64 (freq * (elapsed / per)) = freq * (elapsed / per) :=
-    wrapU64_id (by unfold inU64 two64; unfold maxInt64 at *; omega)
-  unfold Behind
-  rw [h1, h2, h3, h4]
-
-/-- The returned wait is always the mathematical value `(hits+1)·interval − elapsed` reduced into
-`int64` (or the catch-up answer 0). -/
-theorem const_wait_value (freq per elapsed : Int) (hits : Nat) (d : Int)
-    (hf : 0 < freq) (hp : 0 < per) (hp' : per ≤ maxInt64)
-    (h : constPace freq per elapsed hits = .wait d) :
-    (Behind freq per elapsed hits ∧ d = 0) ∨
-    (¬ Behind freq per elapsed hits ∧ d = wrapS64 (((hits : Int) + 1) * (per / freq) - elapsed)) := by
-  rw [aux_constPace_pos hf hp hp'] at h
-  split at h
-  · rename_i hb; left; exact ⟨hb, by injection h with h; omega⟩
-  · rename_i hb
-    split at h
-    · exact absurd h PaceOut.noConfusion
-    · split at h
-      · exact absurd h PaceOut.noConfusion
-      · right; exact ⟨hb, by injection h with h; omega⟩
-
-/-- The overflow guard as it is: the attack is stopped iff `hits·interval > MaxInt64`
-(positive in-range parameters with `Freq ≤ Per`, attacker not behind). -/
-theorem const_stop_iff (freq per elapsed : Int) (hits : Nat)
-    (hf : 0 < freq) (hfp : freq ≤ per) (hp' : per ≤ maxInt64) :
-    constPace freq per elapsed hits = .stop ↔
-      ¬ Behind freq per elapsed hits ∧ maxInt64 < (hits : Int) * (per / freq) := by
-  have hp : 0 < per := by omega
-  have hi := aux_div_pos hf hfp
-  rw [aux_constPace_pos hf hp hp']
-  have hiff := @Int.ediv_lt_iff_lt_mul maxInt64 (hits : Int) (per / freq) (by omega)
+/-- "arithmetic overflow stops the attack instead of wrapping": for all parameters of the Go
+types, all elapsed times and hit counts — the attack is stopped exactly when the deadline
+`⌈(hits+1)·Per/Freq⌉` does not fit `int64` or the hit counter is at `MaxUint64`; otherwise the
+wait is exactly `deadline − max(elapsed, 0)` (0 once the deadline has passed), a value of `int64`
+with no wrap-around anywhere. -/
+theorem const_no_wrap (freq per elapsed : Int) (hits : Nat) (hr : InRange freq per hits)
+    (hf : 0 < freq) (hp : 0 < per) :
+    (constPace freq per elapsed hits = .stop ↔
+        (hits : Int) = (two64 : Int) - 1 ∨ maxInt64 < constDue freq per hits) ∧
+    (∀ d, constPace freq per elapsed hits = .wait d →
+        d = max 0 (constDue freq per hits - max elapsed 0) ∧ 0 ≤ d ∧ d ≤ maxInt64 ∧
+        constDue freq per hits ≤ maxInt64) := by
+  obtain ⟨hfr, hpr, hh⟩ := hr
+  unfold inS64 at hfr hpr
+  rw [aux_constPace_pos hf hp hfr.2 hpr.2 hh]
+  have hdue0 : 0 ≤ constDue freq per hits := by
+    unfold constDue
+    have : 0 ≤ ((hits : Int) + 1) * per := Int.mul_nonneg (by omega) (Int.le_of_lt hp)
+    exact Int.ediv_nonneg (by omega) (Int.le_of_lt hf)
   constructor
-  · intro h
+  · constructor
+    · intro h
+      split at h
+      · assumption
+      · split at h <;> exact absurd h PaceOut.noConfusion
+    · intro h; rw [if_pos h]
+  · intro d h
     split at h
     · exact absurd h PaceOut.noConfusion
-    · rename_i hb
-      rw [if_neg (by omega)] at h
+    · rename_i hns
       split at h
-      · rename_i hg; exact ⟨hb, hiff.1 hg⟩
-      · exact absurd h PaceOut.noConfusion
-  · rintro ⟨hb, hg⟩
-    rw [if_neg hb, if_neg (by omega), if_pos (hiff.2 hg)]
+      · injection h with h; omega
+      · injection h with h; omega
 
-/-
-FULL STATEMENT (false for the unchanged code): "arithmetic overflow stops the attack instead of wrapping"
-  theorem const_no_wrap (freq per elapsed : Int) (hits : Nat) (hr : InRange freq per elapsed hits)
-      (hf : 0 < freq) (hfp : freq ≤ per) :
-      (∀ d, constPace freq per elapsed hits = .wait d →
-          (Behind freq per elapsed hits ∧ d = 0) ∨ d = (hits + 1) * (per / freq) - elapsed) ∧
-      (¬ Behind freq per elapsed hits → maxInt64 < (hits + 1) * (per / freq) →
-          constPace freq per elapsed hits = .stop)
-The guard `MaxInt64/interval < hits` is off by one: at `hits = ⌊MaxInt64/interval⌋` the product
-`(hits+1)·interval` already exceeds MaxInt64, the code returns the wrapped value and goes on.
--/
-theorem const_no_wrap_counterexample :
-    ∃ d, constPace 1 922337203685477580 0 10 = .wait d ∧
-      d ≠ ((10 : Nat) + 1 : Int) * (922337203685477580 / 1) - 0 ∧ d < 0 ∧
+/-- Before the repair: `{1, MaxInt64/10}.Pace(0, 10)` returned a wrapped negative wait although
+`(hits+1)·interval > MaxInt64` (guard off by one). -/
+theorem const_no_wrap_old_counterexample :
+    ∃ d, constPaceOld 1 922337203685477580 0 10 = .wait d ∧ d < 0 ∧
       maxInt64 < ((10 : Nat) + 1 : Int) * (922337203685477580 / 1) :=
   ⟨-8301034833169298236, by decide⟩
 
-/-- What does hold: (1) a returned wait is the unwrapped mathematical value whenever that value
-fits `int64`; (2) the attack is stopped whenever `hits·interval` exceeds MaxInt64.  The gap to the
-full statement is exactly `MaxInt64 − interval < hits·interval ≤ MaxInt64`. -/
-theorem const_no_wrap_partial (freq per elapsed : Int) (hits : Nat)
-    (hf : 0 < freq) (hfp : freq ≤ per) (hp' : per ≤ maxInt64) :
-    (∀ d, inS64 (((hits : Int) + 1) * (per / freq) - elapsed) →
-        constPace freq per elapsed hits = .wait d →
-        (Behind freq per elapsed hits ∧ d = 0) ∨ d = ((hits : Int) + 1) * (per / freq) - elapsed) ∧
-    (¬ Behind freq per elapsed hits → maxInt64 < (hits : Int) * (per / freq) →
-        constPace freq per elapsed hits = .stop) := by
-  have hp : 0 < per := by omega
-  constructor
-  · intro d hin h
-    rcases const_wait_value freq per elapsed hits d hf hp hp' h with h1 | h1
-    · left; exact h1
-    · right; rw [h1.2, wrapS64_id hin]
-  · intro hb hg
-    exact (const_stop_iff freq per elapsed hits hf hfp hp').2 ⟨hb, hg⟩
-
-example : inS64 ((((2 : Nat) : Int) + 1) * (1000000000 / 1) - 1000000000) := by decide
+example : constPace 1 922337203685477580 0 10 = .stop := by decide
 example : constPace 1 1000000000 1000000000 2 = .wait 2000000000 := by decide
 example : constPace 1 3600000000000 9223372036854775807 2562048 = .stop := by decide
+example : InRange 2 1000000000 9 := by refine ⟨?_, ?_, ?_⟩ <;> decide
 
 /-! ## Positive wait only on or ahead of schedule; never more than one hit behind -/
 
-/-- Core of the two schedule clauses: a positive wait is the exact distance to the deadline
-`(hits+1)·interval`, for ALL parameter values of the Go types. -/
+/-- A positive wait is the exact distance to the deadline — for ALL parameter values. -/
 theorem aux_positive_wait (freq per elapsed : Int) (hits : Nat) (d : Int)
-    (hr : InRange freq per elapsed hits)
+    (hr : InRange freq per hits)
     (h : constPace freq per elapsed hits = .wait d) (hd : 0 < d) :
-    0 < freq ∧ freq ≤ per ∧ ¬ Behind freq per elapsed hits ∧
-      elapsed + d = ((hits : Int) + 1) * (per / freq) := by
-  obtain ⟨hfr, hpr, he, _⟩ := hr
+    0 < freq ∧ 0 < per ∧ elapsed < constDue freq per hits ∧
+      max elapsed 0 + d = constDue freq per hits := by
+  have hfr := hr.freq
+  have hpr := hr.per
   unfold inS64 at hfr hpr
   by_cases hz : freq = 0 ∨ per = 0
   · rw [const_zero_unlimited _ _ _ _ hz] at h; injection h with h; omega
@@ -280,80 +228,56 @@ theorem aux_positive_wait (freq per elapsed : Int) (hits : Nat) (d : Int)
     · rw [const_neg_stops _ _ _ _ (by omega) (by omega) hn] at h; exact absurd h PaceOut.noConfusion
     · have hf : 0 < freq := by omega
       have hp : 0 < per := by omega
-      have hb := aux_div_bounds (Int.le_of_lt hp) hf
-      rw [aux_constPace_pos hf hp hpr.2] at h
+      rw [aux_constPace_pos hf hp hfr.2 hpr.2 hr.hits] at h
       split at h
-      · injection h with h; omega
-      · rename_i hnb
-        split at h
-        · exact absurd h PaceOut.noConfusion
-        · rename_i h0
-          split at h
-          · exact absurd h PaceOut.noConfusion
-          · rename_i hg
-            have hi : 0 < per / freq := by omega
-            have hfp : freq ≤ per := by
-              by_cases hlt : per < freq
-              · have : per / freq < 1 := Int.ediv_lt_of_lt_mul hf (by omega)
-                omega
-              · omega
-            have hle : (hits : Int) ≤ maxInt64 / (per / freq) := by omega
-            have hmul : (hits : Int) * (per / freq) ≤ maxInt64 := (Int.le_ediv_iff_mul_le hi).1 hle
-            have hnn : 0 ≤ (hits : Int) * (per / freq) :=
-              Int.mul_nonneg (Int.natCast_nonneg _) hb.1
-            have hM : ((hits : Int) + 1) * (per / freq) - elapsed
-                = (hits : Int) * (per / freq) + per / freq - elapsed := by ring
-            injection h with h
-            rw [hM] at h
-            have hM2 : ((hits : Int) + 1) * (per / freq)
-                = (hits : Int) * (per / freq) + per / freq := by ring
-            refine ⟨hf, hfp, hnb, ?_⟩
-            rw [hM2]
-            generalize (hits : Int) * (per / freq) = x at *
-            generalize per / freq = i at *
-            unfold wrapS64 two64 two63 at h
-            simp only [] at h
-            unfold maxInt64 at *
-            split at h <;> omega
+      · exact absurd h PaceOut.noConfusion
+      · split at h
+        · injection h with h; omega
+        · injection h with h; exact ⟨hf, hp, by omega, by omega⟩
 
 /-- "the pacer asks for a positive wait only when the count is already on or ahead of that
-schedule": a positive wait implies `hits` is not below the code's own expected count, and
-`hits + 1 > S(elapsed) = Freq·elapsed/Per`, i.e. `hits ≥ ⌊S(elapsed)⌋` — for all parameter values. -/
+schedule": a positive wait implies `hits + 1 > S(elapsed)` for the exact rational schedule
+`S(t) = Freq·t/Per`, i.e. `hits ≥ ⌊S(elapsed)⌋` — all parameter values, elapsed times, hit counts. -/
 theorem const_positive_wait_on_schedule (freq per elapsed : Int) (hits : Nat) (d : Int)
-    (hr : InRange freq per elapsed hits)
+    (hr : InRange freq per hits)
     (h : constPace freq per elapsed hits = .wait d) (hd : 0 < d) :
-    ¬ Behind freq per elapsed hits ∧ freq * elapsed < ((hits : Int) + 1) * per := by
-  obtain ⟨hf, hfp, hnb, heq⟩ := aux_positive_wait freq per elapsed hits d hr h hd
-  refine ⟨hnb, ?_⟩
-  have hp : 0 < per := by omega
-  have hb := aux_div_bounds (Int.le_of_lt hp) hf
-  have h1 : freq * elapsed < freq * (((hits : Int) + 1) * (per / freq)) :=
-    Int.mul_lt_mul_of_pos_left (by omega) hf
-  have h2 : ((hits : Int) + 1) * (per / freq * freq) ≤ ((hits : Int) + 1) * per :=
-    Int.mul_le_mul_of_nonneg_left hb.2.2.1 (by omega)
-  have h3 : freq * (((hits : Int) + 1) * (per / freq)) = ((hits : Int) + 1) * (per / freq * freq) := by
-    ring
+    freq * elapsed < ((hits : Int) + 1) * per := by
+  obtain ⟨hf, _, hlt, _⟩ := aux_positive_wait freq per elapsed hits d hr h hd
+  have hc := @aux_ceil (((hits : Int) + 1) * per) freq hf
+  unfold constDue at hlt
+  have h1 : (elapsed + 1) * freq ≤ (((hits : Int) + 1) * per + freq - 1) / freq * freq :=
+    Int.mul_le_mul_of_nonneg_right (by omega) (Int.le_of_lt hf)
+  have h2 : (elapsed + 1) * freq = freq * elapsed + freq := by ring
   omega
 
-/-- "the count never falls more than one hit behind the schedule at the instants hits are
-released": at the release instant the pacer prescribes (`elapsed + d`), the schedule has not passed
-the new count: `S(elapsed + d) ≤ hits + 1` (today's truncated interval errs on the early side only). -/
+/-- Contrapositive, as the statement puts it: "an attacker that fell behind is told to catch up
+without waiting". -/
+theorem const_behind_no_wait (freq per elapsed : Int) (hits : Nat) (d : Int)
+    (hr : InRange freq per hits)
+    (hbehind : ((hits : Int) + 1) * per ≤ freq * elapsed)
+    (h : constPace freq per elapsed hits = .wait d) : d ≤ 0 := by
+  by_cases hd : 0 < d
+  · have := const_positive_wait_on_schedule freq per elapsed hits d hr h hd; omega
+  · omega
+
+/-- "the count never falls more than one hit (plus one nanosecond of quantisation per hit
+interval) behind the schedule at the instants hits are released": at the release instant the pacer
+prescribes, `tr = max(elapsed,0) + d`, the schedule has reached the new count and has passed it by
+less than the one nanosecond of rounding: `hits+1 ≤ S(tr) < hits+1 + Freq/Per`. -/
 theorem const_lower (freq per elapsed : Int) (hits : Nat) (d : Int)
-    (hr : InRange freq per elapsed hits)
+    (hr : InRange freq per hits)
     (h : constPace freq per elapsed hits = .wait d) (hd : 0 < d) :
-    freq * (elapsed + d) ≤ ((hits : Int) + 1) * per := by
-  obtain ⟨hf, hfp, _, heq⟩ := aux_positive_wait freq per elapsed hits d hr h hd
-  have hp : 0 < per := by omega
-  have hb := aux_div_bounds (Int.le_of_lt hp) hf
-  have h2 : ((hits : Int) + 1) * (per / freq * freq) ≤ ((hits : Int) + 1) * per :=
-    Int.mul_le_mul_of_nonneg_left hb.2.2.1 (by omega)
-  have h3 : freq * (elapsed + d) = ((hits : Int) + 1) * (per / freq * freq) := by
-    rw [heq]; ring
+    ((hits : Int) + 1) * per ≤ freq * (max elapsed 0 + d) ∧
+    freq * (max elapsed 0 + d) < ((hits : Int) + 1) * per + freq := by
+  obtain ⟨hf, _, _, heq⟩ := aux_positive_wait freq per elapsed hits d hr h hd
+  have hc := @aux_ceil (((hits : Int) + 1) * per) freq hf
+  rw [heq]
+  unfold constDue
+  rw [Int.mul_comm freq]
   omega
 
-example : InRange 2 1000000000 4900000000 9 := by
-  refine ⟨?_, ?_, ?_, ?_⟩ <;> decide
 example : constPace 2 1000000000 4900000000 9 = .wait 100000000 := by decide
+example : constPace 3 10 (-5) 0 = .wait 4 := by decide
 
 /-! ## The closed loop: count against schedule along every trajectory -/
 
@@ -398,88 +322,67 @@ theorem closedLoop_upper_of_contract (p : Int → Nat → PaceOut) (S : Int → 
   have h2 := hmono (t + max d 0) (t + max d 0 + (s : Int)) (by omega)
   omega
 
-/-
-FULL STATEMENT (false for the unchanged code): "the number of hits issued by any elapsed time t
-never exceeds the pacer's declared cumulative schedule by more than one hit"
-  theorem const_upper (freq per : Int) (hf : 0 < freq) (hfp : freq ≤ per) (hp : per ≤ maxInt64)
-      (stalls : List Nat) :
-      ∀ x ∈ closedLoop (constPace freq per) stalls 0 0, (x.2 : Int) * per ≤ freq * x.1 + per
-With `interval = ⌊Per/Freq⌋` the pacer runs at `1/interval > Freq/Per` whenever `Freq ∤ Per`, and
-the excess grows without bound: 3 hits per 10ns, no stalls, 11 hits at t = 33ns, S(33) = 9.9.
--/
-theorem const_upper_counterexample :
-    ∃ stalls, ∃ x ∈ closedLoop (constPace 3 10) stalls 0 0,
+
+/-- "the number of hits issued by any elapsed time t never exceeds the pacer's declared cumulative
+schedule by more than one hit": along EVERY closed loop — every positive frequency and unit of the
+Go types (also more than one hit per nanosecond, also `Freq ∤ Per`), every stall history, every
+length — the count never exceeds the exact schedule at all: `n_k ≤ S(t_k) = Freq·t_k/Per`. -/
+theorem const_upper (freq per : Int) (hf : 0 < freq) (hp : 0 < per)
+    (hf' : freq ≤ maxInt64) (hp' : per ≤ maxInt64) (stalls : List Nat) :
+    ∀ x ∈ closedLoop (constPace freq per) stalls 0 0, (x.2 : Int) * per ≤ freq * x.1 := by
+  have key := closedLoop_invariant (constPace freq per)
+    (fun t n => 0 ≤ t ∧ (n : Int) < (two64 : Int) ∧ (n : Int) * per ≤ freq * t) ?_ stalls 0 0
+    ⟨by omega, by unfold two64; omega, by simp⟩
+  · intro x hx; exact (key x hx).2.2
+  · intro t n d s ⟨ht0, hn, _⟩ hw _
+    have hcast : ((n + 1 : Nat) : Int) = (n : Int) + 1 := by push_cast; ring
+    rw [hcast]
+    have hpos := aux_constPace_pos (elapsed := t) hf hp hf' hp' hn
+    rw [hpos] at hw
+    have hc := @aux_ceil (((n : Int) + 1) * per) freq hf
+    have hmono : ∀ t' : Int, constDue freq per n ≤ t' → ((n : Int) + 1) * per ≤ freq * t' := by
+      intro t' ht'
+      have h1 : constDue freq per n * freq ≤ t' * freq :=
+        Int.mul_le_mul_of_nonneg_right ht' (Int.le_of_lt hf)
+      have h2 : t' * freq = freq * t' := by ring
+      unfold constDue at h1
+      omega
+    split at hw
+    · exact absurd hw PaceOut.noConfusion
+    · rename_i hns
+      refine ⟨by omega, by omega, ?_⟩
+      split at hw
+      · injection hw with hw; apply hmono; omega
+      · injection hw with hw; apply hmono; omega
+
+/-- The statement's form of the bound, `n_k ≤ S(t_k) + 1`. -/
+theorem const_upper_plus_one (freq per : Int) (hf : 0 < freq) (hp : 0 < per)
+    (hf' : freq ≤ maxInt64) (hp' : per ≤ maxInt64) (stalls : List Nat) :
+    ∀ x ∈ closedLoop (constPace freq per) stalls 0 0, (x.2 : Int) * per ≤ freq * x.1 + per := by
+  intro x hx
+  have := const_upper freq per hf hp hf' hp' stalls x hx
+  omega
+
+/-- Before the repair: 3 hits per 10ns, no stalls: 11 hits at t = 33ns, S(33) = 9.9 (the truncated
+interval ⌊Per/Freq⌋ ran ahead without bound whenever `Freq ∤ Per`). -/
+theorem const_upper_old_counterexample :
+    ∃ stalls, ∃ x ∈ closedLoop (constPaceOld 3 10) stalls 0 0,
       ¬ ((x.2 : Int) * 10 ≤ 3 * x.1 + 10) :=
   ⟨List.replicate 11 0, (33, 11), by decide, by decide⟩
 
-/-- What does hold, for every rate of at most one hit per nanosecond, every stall history and
-every length: the count never exceeds the EFFECTIVE schedule `t / ⌊Per/Freq⌋` (not even by one). -/
-theorem const_upper_partial (freq per : Int) (hf : 0 < freq) (hfp : freq ≤ per)
-    (hp' : per ≤ maxInt64) (stalls : List Nat) :
-    ∀ x ∈ closedLoop (constPace freq per) stalls 0 0, (x.2 : Int) * (per / freq) ≤ x.1 := by
-  have hp : 0 < per := by omega
-  have hb := aux_div_bounds (Int.le_of_lt hp) hf
-  have hi := aux_div_pos hf hfp
-  have key := closedLoop_invariant (constPace freq per)
-    (fun t n => 0 ≤ t ∧ t ≤ maxInt64 ∧ (n : Int) * (per / freq) ≤ t) ?_ stalls 0 0
-    ⟨by omega, by unfold maxInt64; omega, by simp⟩
-  · intro x hx; exact (key x hx).2.2
-  · intro t n d s ⟨ht0, ht1, hinv⟩ hw hle
-    have hcast : ((n + 1 : Nat) : Int) = (n : Int) + 1 := by push_cast; ring
-    refine ⟨by omega, hle, ?_⟩
-    rw [hcast]
-    rcases const_wait_value freq per t n d hf hp hp' hw with ⟨hbeh, hd⟩ | ⟨hnb, hd⟩
-    · -- catching up: n < freq·⌊t/per⌋, hence (n+1)·interval ≤ t
-      rw [aux_behind_iff hf hfp hp' ⟨ht0, ht1⟩] at hbeh
-      have hq := aux_div_bounds ht0 hp
-      have h1 : ((n : Int) + 1) * (per / freq) ≤ freq * (t / per) * (per / freq) :=
-        Int.mul_le_mul_of_nonneg_right (by omega) hb.1
-      have h2 : t / per * (per / freq * freq) ≤ t / per * per :=
-        Int.mul_le_mul_of_nonneg_left hb.2.2.1 hq.1
-      have h3 : freq * (t / per) * (per / freq) = t / per * (per / freq * freq) := by ring
-      omega
-    · -- on schedule: the deadline (n+1)·interval, no wrap because n·interval ≤ t
-      have hM : ((n : Int) + 1) * (per / freq) - t = (n : Int) * (per / freq) + per / freq - t := by
-        ring
-      have hM2 : ((n : Int) + 1) * (per / freq) = (n : Int) * (per / freq) + per / freq := by ring
-      have hnn : 0 ≤ (n : Int) * (per / freq) := Int.mul_nonneg (Int.natCast_nonneg _) hb.1
-      rw [hM] at hd
-      rw [hM2]
-      generalize (n : Int) * (per / freq) = x at *
-      generalize per / freq = i at *
-      unfold wrapS64 two64 two63 at hd
-      simp only [] at hd
-      unfold maxInt64 at *
-      split at hd <;> omega
-
-/-- Consequently the statement's upper clause holds for the true schedule `S(t) = Freq·t/Per`
-whenever `Freq` divides `Per` (e.g. every rate `n/1s` with `n | 10^9`): `n_k ≤ S(t_k)`. -/
-theorem const_upper_of_dvd (freq per : Int) (hf : 0 < freq) (hdvd : freq ∣ per) (hp0 : 0 < per)
-    (hp' : per ≤ maxInt64) (stalls : List Nat) :
-    ∀ x ∈ closedLoop (constPace freq per) stalls 0 0, (x.2 : Int) * per ≤ freq * x.1 + per := by
-  have hfp : freq ≤ per := Int.le_of_dvd hp0 hdvd
-  intro x hx
-  have h := const_upper_partial freq per hf hfp hp' stalls x hx
-  have hmul : freq * (per / freq) = per := Int.mul_ediv_cancel' hdvd
-  have h1 : (x.2 : Int) * (per / freq) * freq ≤ x.1 * freq :=
-    Int.mul_le_mul_of_nonneg_right h (Int.le_of_lt hf)
-  have h2 : (x.2 : Int) * (per / freq) * freq = (x.2 : Int) * (freq * (per / freq)) := by ring
-  rw [h2, hmul] at h1
-  have h3 : x.1 * freq = freq * x.1 := by ring
-  omega
-
+example : ∃ x ∈ closedLoop (constPace 3 10) (List.replicate 11 0) 0 0, x = ((37 : Int), (11 : Nat)) := by
+  decide
 example : ∃ x ∈ closedLoop (constPace 2 10) [0, 7, 0] 0 0, x = ((17 : Int), (3 : Nat)) := by decide
 
-/-- Along every closed loop no call panics when `Freq ≤ Per` (end reason 2 = panic). -/
-theorem const_loop_never_panics_partial (freq per : Int) (hp' : per ≤ maxInt64)
-    (h : freq ≤ per ∨ freq ≤ 0 ∨ per ≤ 0) (stalls : List Nat) :
+/-- Along every closed loop no call panics (end reason 2 = panic), for all parameters. -/
+theorem const_loop_never_panics (freq per : Int) (hf : inS64 freq) (stalls : List Nat) :
     ∀ (t : Int) (n : Nat), closedLoopEnd (constPace freq per) stalls t n ≠ 2 := by
   induction stalls with
   | nil => intro t n; simp [closedLoopEnd]
   | cons s rest ih =>
     intro t n
     unfold closedLoopEnd
-    have hnp := const_never_panics_partial freq per t n hp' h
+    have hnp := const_never_panics freq per t n hf
     split
     · simp only []
       split
@@ -631,7 +534,7 @@ theorem aux_sine_exits (p : SineP F) (t : Int) (n : Nat) (d : Int)
       · right; right; rw [if_neg hc]
 
 /-
-FULL STATEMENT (not provable: it is about `sin`/`cos` and it is false for the unchanged code when
+FULL STATEMENT (not provable: it is about `sin`/`cos` and it is false for the present code when
 the amplitude approaches the mean): along every closed loop of the sine pacer the count never
 exceeds the schedule `H` by more than one hit.
 What is proved: the closed-loop bound for ANY monotone schedule `S` (in hits) that the float
